@@ -50,7 +50,8 @@ let process line =
   let next () = let v = int_of_string toks.(!pos) in incr pos; v in
   let p_ = next () in let two = next () in let ign = next () in let src = next () in let dst = next () in
   let mode0 = next () in let mode = mode0 mod 4 in   (* +4/+8: build() called twice on one object; the model is the code after fixes/C05-1 (build starts from scratch) *)
-  let pol0 = next () in let pol = pol0 mod 2 and dt = (pol0 / 2) mod 2 <> 0 and cgs = (pol0 / 4) mod 2 <> 0 && (mode <> 1) and sep = (pol0 / 8) mod 2 <> 0 in   (* +2: DatatypeCommunicator phases 3/4, spec only *) let _seed = next () in let ng = next () in
+  let pol0 = next () in let pol = pol0 mod 2 and dt = (pol0 / 2) mod 2 <> 0 and cgs = (pol0 / 4) mod 2 <> 0 && (mode <> 1) and sep = (pol0 / 8) mod 2 <> 0 in
+  let ictor = (pol0 / 128) mod 2 <> 0 and ipre = (pol0 / 256) mod 2 <> 0 and opre = (pol0 / 512) mod 2 <> 0 in   (* +2: DatatypeCommunicator phases 3/4, spec only *) let _seed = next () in let ng = next () in
   let sz = Array.init ng (fun _ -> next ()) in
   let read_set () = let n = next () in let es = List.init n (fun _ -> let g = next () in let l = next () in let a = next () in let pub = next () in { g; l; a; pub }) in
     let cap = next () in (es, cap) in
@@ -64,18 +65,39 @@ let process line =
   let dec = List.map (fun (s, t) -> (c05_sort s, c05_sort t)) dec_raw in
   let ranks = List.init p_ (fun i -> i) in
   let rmaps = List.map (fun p -> c05_remote_of two_b ign_b dec (nat_of_int p)) ranks in
-  let ifs = List.map (fun rm -> c05_iobj_run [C05_IBuild (fsrc, fdst, rm); C05_IStrip]) rmaps in   (* the Interface object: build(), strip() *)
+  (* communicators: `built` = the communicator of the RemoteIndices (rank r = process r), `other` = the same processes in the
+     opposite rank order; the remote index map of process p as the RemoteIndices on `other` see it *)
+  let built = List.map nat_of_int ranks and other = List.map nat_of_int (List.rev ranks) in
+  let dec_other = List.rev dec in
+  let rmaps_other = List.map (fun p -> c05_remote_of two_b ign_b dec_other (nat_of_int (p_ - 1 - p))) ranks in
+  (* the Interface object of the communication: constructor argument, earlier build on `other` + free(), build(), strip() *)
+  let iobjs = List.mapi (fun p rm ->
+      c05_icobj_run (if ictor then Some other else None)
+        ((if ipre then [C05_ICBuild (C05_All, C05_All, List.nth rmaps_other p, Some other); C05_ICFree] else [])
+         @ [C05_ICBuild (fsrc, fdst, rm, Some built); C05_ICStrip])) rmaps in
+  let ifs = List.map (fun o -> o.c05_ic_ifs) iobjs in
+  (* the Interface(other) of the EQ stream: build, free, build with exchanged flags *)
+  let cm_str p =
+    let rm = List.nth rmaps p in
+    let o1 = c05_icobj_run (Some other) [C05_ICBuild (fsrc, fdst, rm, Some built)] in
+    let o2 = c05_icobj_run (Some other) [C05_ICBuild (fsrc, fdst, rm, Some built); C05_ICFree; C05_ICBuild (fdst, fsrc, rm, Some built)] in
+    let b x = if x then 1 else 0 in
+    Printf.sprintf "CM[%d/%d]" (b (c05_comm_eqb (List.nth iobjs p).c05_ic_comm (Some built)))
+      (b (c05_comm_eqb o1.c05_ic_comm (Some built) && c05_comm_eqb o2.c05_ic_comm (Some built))) in
   let szs = List.map (fun r -> sizes mode sz r.s r.caps) rss and szt = List.map (fun r -> sizes mode sz r.t r.capt) rss in
   let ifs_ok = List.for_all (fun o -> o <> None) ifs in
   let ifs' = List.map (function Some m -> m | None -> []) ifs in
   let d0s = List.mapi (fun p s -> mk_data 0 p 0 s) szs and d0t = List.mapi (fun p s -> mk_data 0 p 1 s) szt in
   let rebuild = mode0 / 4 in                       (* 0: build; 1: build(pre), build; 2: build(pre), free, build *)
-  let cms = List.mapi (fun p ((m, ds), dt) ->
+  let bobjs = List.mapi (fun p ((m, ds), dt) ->
       let szs' = (fun l -> c05_getsize ds l) and szd' = (fun l -> c05_getsize (if tc then dt else ds) l) in
-      let pre = match c05_interface_build C05_All C05_All (List.nth rmaps p) with Some x -> x | None -> [] in
-      let hist = (if rebuild >= 1 then [C05_BBuild (szs', szd', pre)] else []) @ (if rebuild = 2 then [C05_BFree] else [])
-                 @ [C05_BBuild (szs', szd', m); C05_BCommunicate; C05_BCommunicate; C05_BCommunicate] in
-      c05_bobj_run hist) (List.combine (List.combine ifs' d0s) d0t) in
+      ignore m;
+      let pre = if opre then c05_icobj_run None [C05_ICBuild (C05_All, C05_All, List.nth rmaps_other p, Some other)]
+                else c05_icobj_run None [C05_ICBuild (C05_All, C05_All, List.nth rmaps p, Some built)] in
+      let hist = (if rebuild >= 1 then [C05_BCBuild (szs', szd', pre)] else []) @ (if rebuild = 2 then [C05_BCFree] else [])
+                 @ [C05_BCBuild (szs', szd', List.nth iobjs p); C05_BCCommunicate; C05_BCCommunicate; C05_BCCommunicate] in
+      c05_bcobj_run hist) (List.combine (List.combine ifs' d0s) d0t) in
+  let cms = List.map (fun o -> o.c05_bc_cm) bobjs in
   (* phases *)
   let order_dep = ref false in
   let phase_strs = List.map (fun ph ->
@@ -83,7 +105,7 @@ let process line =
     let ds = List.mapi (fun p s -> mk_data ph p 0 s) szs in
     let dt = if tc then List.mapi (fun p s -> mk_data ph p 1 s) szt else ds in
     let gdata = if fwd then ds else dt and sdata = if fwd then dt else ds in
-    let run ord = c05_phase add fwd cms gdata sdata (List.map (fun cm -> ord fwd cm) cms) in
+    let run ord = c05_phase_objs built add fwd bobjs gdata sdata (List.map (fun cm -> ord fwd cm) cms) in
     let ra = run c05_order_asc and rd = run c05_order_desc in
     List.iter2 (fun a d -> match a, d with
       | C05_Ok (da, la), C05_Ok (dd, ld) -> if sort_calls la <> sort_calls ld || (add && da <> dd) then order_dep := true
@@ -113,13 +135,19 @@ let process line =
         let mk ph = let ds = List.mapi (fun p s -> mk_data ph p 0 s) szs in
                     let dtt = if tc then List.mapi (fun p s -> mk_data ph p 1 s) szt else ds in (ds, dtt) in
         let (ds3, dt3) = mk 3 in
-        let types = List.mapi (fun p rm -> match c05_dt_build fsrc fdst rm (List.nth ds3 p) (List.nth dt3 p) with Some t -> t | None -> []) rmaps in
+        let dobjs = List.mapi (fun p rm ->
+            c05_dcobj_run ((if opre then [C05_DCBuild (C05_All, C05_All, List.nth rmaps_other p, Some other, List.nth ds3 p, List.nth dt3 p)]
+                            else if _seed mod 2 <> 0 then [C05_DCBuild (C05_All, C05_All, rm, Some built, List.nth ds3 p, List.nth dt3 p)] else [])
+                           @ [C05_DCBuild (fsrc, fdst, rm, Some built, List.nth ds3 p, List.nth dt3 p); C05_DCCommunicate; C05_DCCommunicate])) rmaps in
+        let types = List.map (fun o -> match o.c05_dc_types with Some t -> t | None -> []) dobjs in
+        let used = match dobjs with o :: _ -> (match o.c05_dc_comm with Some u -> u | None -> []) | [] -> [] in
+        if not (List.for_all (fun o -> c05_comm_eqb o.c05_dc_comm (Some used)) dobjs) then order_dep := true;
         let tstr t = join "," (fun (l, n) -> Printf.sprintf "%d.%d" (int_of_nat l) (int_of_nat n)) t in
         let dts = join " " (fun (q, (st, rt)) -> Printf.sprintf "%d:%s/%s" (int_of_nat q) (tstr st) (tstr rt)) (List.nth types p) in
         let orders = List.map (fun t -> List.map fst t) types in
-        let r3 = c05_dt_phase true types ds3 dt3 orders in
+        let r3 = c05_dt_phase_on used built true types ds3 dt3 orders in
         let (ds4, dt4) = mk 4 in
-        let r4 = c05_dt_phase false types dt4 ds4 orders in
+        let r4 = c05_dt_phase_on used built false types dt4 ds4 orders in
         (* the same through the persistent requests of createRequests: container and datatype of every request *)
         let via_requests fwd sdat rdat =
           List.mapi (fun q tq ->
@@ -141,7 +169,7 @@ let process line =
       end in
     let sw = c05_interface_build fdst fsrc rm in
     let eq = match List.nth ifs p, sw with Some a, Some b -> if c05_iface_eqb a b then 1 else 0 | _ -> 0 in
-    Printf.sprintf "r%d RI[%s] IF[%s] SE[%s] SD[1] EQ[1/%d/1/1/1] ST[1/1/1] CP[1] %s%s" p ri ifstr se eq (join " " (fun phs -> List.nth phs p) phase_strs) dtstr) ranks in
+    Printf.sprintf "r%d RI[%s] IF[%s] SE[%s] SD[1] EQ[1/%d/1/1/1] %s ST[1/1/1] CP[1] %s%s" p ri ifstr se eq (cm_str p) (join " " (fun phs -> List.nth phs p) phase_strs) dtstr) ranks in
   (* spec, from the decomposition alone *)
   let fa = c05_contains fsrc and ft = c05_contains fdst in
   let spec = join " ;; " (fun p ->
@@ -166,7 +194,7 @@ let process line =
         let fin = c05_spec_final add (List.nth ds p) calls in
         Printf.sprintf "P%d[S:%s D:%s T:%s]" ph (calls_str calls) (odata_str fin) (if tc then odata_str (some (List.nth dt p)) else odata_str fin)) ([0; 1; 2] @ (if cgs then [5; 6] else []) @ (if dt then [3; 4] else [])) in
     let sisw = c05_spec_interface two_b ign_b ft fa dec_raw np in
-    Printf.sprintf "r%d IF[%s] SE[%s] SD[1] EQ[1/%d/1/1/1] ST[1/1/1] CP[1] %s" p (imap_str si) se (if c05_iface_eqb si sisw then 1 else 0) phs) ranks in
+    Printf.sprintf "r%d IF[%s] SE[%s] SD[1] EQ[1/%d/1/1/1] CM[1/1] ST[1/1/1] CP[1] %s" p (imap_str si) se (if c05_iface_eqb si sisw then 1 else 0) phs) ranks in
   ignore ifs_ok;
   print_string model; print_string " || "; print_string spec;
   if !order_dep then print_string " ORDER-DEPENDENT";
